@@ -33,7 +33,26 @@ def main():
         "\twaitReasonSyncMutexLock:         true,\n"
         "\twaitReasonSyncRWMutexRLock:      true,\n"
         "\twaitReasonSyncRWMutexLock:       true,\n}", "isIdleInSynctest")
+    # a per-goroutine flag for the yield hook below (appended to the end of the g struct:
+    # the offsets of the fields assembly code knows about are unchanged)
+    s = must_replace(s, "\tcoroarg *coro // argument during coroutine transfers\n\tbubble  *synctestBubble\n",
+        "\tcoroarg *coro // argument during coroutine transfers\n\tbubble  *synctestBubble\n\tsimNoYield bool // (sim) this goroutine never parks at a gate\n", "g.simNoYield")
     q = os.path.join(OUT, "runtime2.go"); open(q, "w").write(s); replace[p] = q
+    # --- chan.go / select.go: gates. Every channel send, receive and select executed by a
+    # goroutine inside a bubble first offers the simulator a chance to park the goroutine
+    # ("a preemption right before this operation"); see harness/gates.go.
+    p = os.path.join(GOROOT, "src/runtime/chan.go")
+    s = open(p).read()
+    s = must_replace(s, "func chansend(c *hchan, ep unsafe.Pointer, block bool, callerpc uintptr) bool {\n",
+        "func chansend(c *hchan, ep unsafe.Pointer, block bool, callerpc uintptr) bool {\n\tsimMaybeYield(1)\n", "chansend")
+    s = must_replace(s, "func chanrecv(c *hchan, ep unsafe.Pointer, block bool) (selected, received bool) {\n",
+        "func chanrecv(c *hchan, ep unsafe.Pointer, block bool) (selected, received bool) {\n\tsimMaybeYield(2)\n", "chanrecv")
+    q = os.path.join(OUT, "chan.go"); open(q, "w").write(s); replace[p] = q
+    p = os.path.join(GOROOT, "src/runtime/select.go")
+    s = open(p).read()
+    s = must_replace(s, "func selectgo(cas0 *scase, order0 *uint16, pc0 *uintptr, nsends, nrecvs int, block bool) (int, bool) {\n",
+        "func selectgo(cas0 *scase, order0 *uint16, pc0 *uintptr, nsends, nrecvs int, block bool) (int, bool) {\n\tsimMaybeYield(3)\n", "selectgo")
+    q = os.path.join(OUT, "select.go"); open(q, "w").write(s); replace[p] = q
     # --- rand.go
     p = os.path.join(GOROOT, "src/runtime/rand.go")
     s = open(p).read()
@@ -67,6 +86,41 @@ func simNextRand() uint64 {
 	simPinCount++
 	return simPinRand
 }
+
+// ---- gates: a hook the harness installs; called at the entry of channel operations and
+// of sync.Mutex.Lock by goroutines inside a bubble (never on a system stack, never with
+// runtime locks held, never re-entrantly).
+
+var simYieldFn func(kind int, n int, p0, p1, p2, p3, p4, p5 uintptr)
+
+//go:linkname simSetYieldFn runtime.simSetYieldFn
+func simSetYieldFn(f func(kind int, n int, p0, p1, p2, p3, p4, p5 uintptr)) { simYieldFn = f }
+
+//go:linkname simSetNoYield runtime.simSetNoYield
+func simSetNoYield(v bool) bool {
+	gp := getg()
+	old := gp.simNoYield
+	gp.simNoYield = v
+	return old
+}
+
+func simMaybeYield(kind int) {
+	if simYieldFn == nil {
+		return
+	}
+	gp := getg()
+	if gp.bubble == nil || gp.simNoYield || gp.m.curg != gp || gp.m.locks != 0 || gp.m.preemptoff != "" {
+		return
+	}
+	gp.simNoYield = true
+	var pcs [6]uintptr
+	n := callers(2, pcs[:])
+	simYieldFn(kind, n, pcs[0], pcs[1], pcs[2], pcs[3], pcs[4], pcs[5])
+	gp.simNoYield = false
+}
+
+//go:linkname internal_sync_simMaybeYield internal/sync.runtime_simMaybeYield
+func internal_sync_simMaybeYield(kind int) { simMaybeYield(kind) }
 """
     q = os.path.join(OUT, "rand.go"); open(q, "w").write(s); replace[p] = q
     # --- internal/sync/mutex.go: starvation mode is decided by wall-clock waiting time
@@ -75,6 +129,8 @@ func simNextRand() uint64 {
     s = open(p).read()
     s = must_replace(s, "starving = starving || runtime_nanotime()-waitStartTime > starvationThresholdNs",
         "starving = starving || (false && runtime_nanotime()-waitStartTime > starvationThresholdNs)", "mutex starvation")
+    s = must_replace(s, "func (m *Mutex) Lock() {\n", "func (m *Mutex) Lock() {\n\truntime_simMaybeYield(4)\n", "Mutex.Lock")
+    s += "\n//go:linkname runtime_simMaybeYield\nfunc runtime_simMaybeYield(kind int)\n"
     q = os.path.join(OUT, "mutex.go"); open(q, "w").write(s); replace[p] = q
     # --- runtime/proc.go: sysmon asks a goroutine that has been running for 10 ms of
     # wall-clock time to yield at its next function call. That is a schedule decision
@@ -84,6 +140,7 @@ func simNextRand() uint64 {
     s = open(p).read()
     s = must_replace(s, "const forcePreemptNS = 10 * 1000 * 1000 // 10ms",
         "const forcePreemptNS = 1000 * 1000 * 1000 * 1000 * 1000 // (sim) effectively never", "forcePreemptNS")
+    s = must_replace(s, "\tnewg.gopc = callerpc\n", "\tnewg.gopc = callerpc\n\tnewg.simNoYield = false // (sim) g structs are reused\n", "newproc1")
     q = os.path.join(OUT, "proc.go"); open(q, "w").write(s); replace[p] = q
     # --- extra replacements produced by simgen (json map file -> file)
     extra = os.path.join(OUT, "extra.json")
